@@ -31,7 +31,10 @@ RULE = ("cases = (base class, base hyper-parameters, beta_lower, tau, phi, data 
         "beta_lower / tau / phi are re-assigned by attribute assignment between training calls (oracle alone): "
         "non-trivial when a second winner learns after a re-assignment.  Plus long streams of one repeated midpoint "
         "sample between two categories (oracle alone; up to 2**16+8 co-activations of one ordered pair in the quick "
-        "tier, >= 70000 rows in the thorough tier): non-trivial when one edge count reaches the stream length")
+        "tier, >= 70000 rows in the thorough tier): non-trivial when one edge count reaches the stream length.  Plus "
+        "histories whose training call is `fit_gif` (BaseART's loop with a frame per sample; 6-14 rows of 2 features, "
+        "tau in 2..4, on a new estimator / after a fit / followed by partial_fit; model + oracle): non-trivial when a "
+        "pruning round inside the fit_gif call removes a category")
 
 UNREC = 1000000
 
@@ -71,6 +74,7 @@ class Rec:
         self.steps: list[dict] = []           # records of the running call
         self.ids: list = []                   # creation step of each category, parallel to W
         self.lowered = False                  # a category learned below the configured vigilance
+        self.core_raised = False              # an exception left step_fit / prune (and not the caller's own glue)
         self._install()
 
     # -- tables
@@ -138,6 +142,9 @@ class Rec:
             nb = len(base.W)
             try:
                 c = o_step(x, *a, **kw)
+            except BaseException:
+                rec.core_raised = True
+                raise
             finally:
                 rec.cur = None
                 rec.g += 1
@@ -150,7 +157,11 @@ class Rec:
         def prune(X):
             before_objs = list(base.W)
             pre = rec.snap()
-            o_prune(X)
+            try:
+                o_prune(X)
+            except BaseException:
+                rec.core_raised = True
+                raise
             new_ids = []
             for w in base.W:
                 k = next((k for k, ww in enumerate(before_objs) if ww is w), None)
@@ -268,6 +279,39 @@ def oracle_step(ctx, rec: Rec, st: dict, post: dict, mode: str, has_reset: bool,
         ctx.issue("violation", f"{tag}:label-range", f"step {st['g']}: labels {lab} with |W|={nW}", repl)
     if (-1 in lab) and not wiped:
         ctx.issue("violation", f"{tag}:minus-one-without-wipe-out", f"step {st['g']}: labels {lab}", repl)
+    # ---- "all sample labels are re-indexed consistently", end to end for the sample just presented: once its cycle
+    # (two-winner step, label write, pruning round if one is due) is over, its label is the category the step returned
+    # carried through that round's re-indexing (re-predicted when that category was removed, -1 when nothing is left);
+    # the labels of the samples presented before it are those the round left (or unchanged, without a round)
+    row = presented - 1
+    if 0 <= row < len(post["labels"]) and st["prune"] is not None and None not in st["prune"][2]:
+        _, post_p, kept_pos, _ = st["prune"]
+        if c in kept_pos:
+            exp, how = kept_pos.index(c), f"survivor {c} of {kept_pos} re-indexed"
+        elif kept_pos:
+            with quiet():
+                T = [float(cls_call(base, "category_choice", x, w, m.params)[0]) for w in post_p["Wv"]]
+            exp, how = int(np.argmax(T)), f"category {c} removed (survivors {kept_pos}): re-predicted"
+            cov.hit("closing-sample-orphaned-and-re-predicted")
+        else:
+            exp, how = -1, "nothing survived"
+        before = post_p["labels"][:row]
+        if c in kept_pos and kept_pos.index(c) != c:
+            cov.hit(f"closing-sample's-category-changes-index:{entry}")
+    elif 0 <= row < len(post["labels"]) and st["prune"] is None:
+        exp, how, before = c, "no pruning round", pre["labels"][:row]
+    else:
+        exp = None
+    if exp is not None:
+        if post["labels"][row] != exp:
+            ctx.issue("violation", f"{tag}:label-of-sample-not-reindexed" if st["prune"] is not None else f"{tag}:label-of-sample",
+                      f"step {st['g']} (row {row}): the step returned category {c}, {how}, so the sample's label is {exp}; "
+                      f"labels_[{row}]={post['labels'][row]} after the sample's cycle (|W|={nW}, labels {lab})", repl)
+        elif post["labels"][:row] != before:
+            ctx.issue("violation", f"{tag}:earlier-labels-changed-outside-pruning", f"step {st['g']}: labels of rows "
+                      f"0..{row - 1} {before} -> {post['labels'][:row]}", repl)
+        else:
+            cov.hit("label-of-sample=step-result-through-re-indexing")
     # ---- frame of the step
     if mid["n"] != pre["n"] + 1:
         ctx.issue("violation", f"{tag}:sample-counter", f"step {st['g']}: n {pre['n']} -> {mid['n']}", repl)
@@ -539,6 +583,126 @@ def make_reconf_case(ctx, i: int, seed=None):
                 style="reconf", reconf=True, seed=seed)
 
 
+# ------------------------------------------------------------------ fit_gif: the third training entry point
+#
+# `fit_gif` is BaseART's training loop with one animation frame per sample (pre_step_fit, step_fit, label write,
+# post_step_fit = TopoART's pruning schedule, frame), inherited by TopoART: a history whose training call is `fit_gif`
+# is a history of the property like one through `fit` — two winners per sample, a pruning round every tau samples
+# DURING the call, everything re-indexed together.  Frames cost ~50 ms each, so the data sets are small (6..14 rows of
+# 2 features), tau is 2..4 so that several rounds fall inside the call, and every case is picked by a cheap pilot
+# (`fit` on the same rows, no frames) among a dozen candidates: one in which a round removes a category, preferably
+# such that the sample that closes the round sits in a category whose index changes in that round (or that is removed).
+
+
+def _matplotlib():
+    try:
+        import matplotlib
+        matplotlib.use("Agg")
+        import matplotlib.pyplot as plt
+        return matplotlib, plt
+    except Exception:
+        return None
+
+
+def fit_gif_call(m, B, **kw):
+    """est.fit_gif through the public API: Agg backend, small figure, the gif in a temporary directory"""
+    import tempfile
+    matplotlib, plt = _matplotlib()
+    with tempfile.TemporaryDirectory(prefix="artv-c14-gif-") as tmp, matplotlib.rc_context({"figure.figsize": (1.0, 1.0)}):
+        try:
+            m.fit_gif(B, filename=f"{tmp}/topo.gif", n_cluster_estimate=len(B) + 1, fps=50, **kw)
+        finally:
+            plt.close("all")
+
+
+def _gif_candidate(r, cls: str, i: int):
+    mode = r.choice(MODES)
+    tau = r.randint(2, 4)
+    phi = r.randint(2, tau) if r.random() < 0.8 else 1
+    has_reset = r.random() < 0.25
+    eps = r.choice([0.0, 2.0 ** -20, 2.0 ** -10, 0.125])
+    bspec = specs.elem_spec(r, cls, 2)
+    if r.random() < 0.7:                         # high vigilance: many categories, the isolated ones get removed
+        bspec["rho"] = r.choice([0.625, 0.75, 0.875, 1.0])
+    beta = bspec["beta"]
+    beta_lower = r.choice([beta, beta / 2, beta / 4, 0.0])
+    n = r.randint(6, 14)                         # rows of the fit_gif call
+    extra = r.randint(2, 6)                      # rows for the calls before / after it
+    # dense spots (presented several times) and isolated points (once), in a random order
+    pool = specs.elem_data(r, cls, r.randint(3, 7), 2, floats=r.random() < 0.3)
+    if cls == "ART2A":
+        pool = pool[np.any(pool != 0, axis=1)] if np.any(pool != 0) else pool
+    ndense = r.randint(1, max(1, len(pool) // 2))
+    idx = [r.randrange(ndense) if r.random() < 0.65 else r.randrange(len(pool)) for _ in range(n + extra)]
+    X = np.array(pool[idx], dtype=float)
+    style = r.choice(["gif", "gif", "fit-gif", "pfit-gif", "gif-pfit", "gif-pred-pfit"])
+    total = n + extra
+    if style == "gif":
+        calls = [("gif", 0, n), ("pred", 0, min(n, 4))]
+    elif style == "fit-gif":                     # a trained estimator: fit_gif starts again like fit
+        calls = [("fit", r.choice([0, n]), total), ("gif", 0, n), ("pred", 0, min(n, 4))]
+    elif style == "pfit-gif":
+        calls = [("pfit", n, total), ("gif", 0, n)]
+    elif style == "gif-pfit":                    # partial_fit continues the model fit_gif left
+        calls = [("gif", 0, n), ("pfit", n, total), ("pred", 0, min(total, 4))]
+    else:
+        calls = [("gif", 0, n), ("pred", 0, min(n, 3)), ("pfit", n, total)]
+    nsteps = sum(hi - lo for kd, lo, hi in calls if kd != "pred")
+    vt = gen.veto_table(r, nsteps, nsteps + 1) if has_reset else None
+    spec = {"cls": "TopoART", "base_module": bspec, "beta_lower": float(beta_lower), "tau": tau, "phi": phi}
+    return dict(i=i, cls=cls, mode=mode, eps=eps, spec=spec, X=X, calls=calls, vt=vt, tau=tau, phi=phi,
+                style=style, gif=True)
+
+
+def _gif_pilot(case: dict):
+    """(rounds in which the closing sample's category survives with another index, rounds with survivors in which it is
+    removed, rounds in which it moves or is removed at all, rounds that remove a category) of a plain `fit` on the rows
+    of the fit_gif call, with the same veto rows; zeros when the pilot raises"""
+    calls = case["calls"]
+    k = next(j for j, cl in enumerate(calls) if cl[0] == "gif")
+    g0 = sum(hi - lo for kd, lo, hi in calls[:k] if kd != "pred")
+    _, lo, hi = calls[k]
+    try:
+        with quiet():
+            m = make(case["spec"])
+            rec = Rec(m, case["vt"])
+            rec.g = g0
+            m.fit(case["X"][lo:hi], match_reset_func=rec.reset_func() if case["vt"] is not None else None,
+                  match_tracking=case["mode"], epsilon=case["eps"])
+    except Exception:
+        return 0, 0, 0, 0
+    shifted = orphaned = moved = removing = 0
+    for st in rec.steps:
+        if st["prune"] is None or st["ret"] is None:
+            continue
+        pre_p, post_p, kept_pos, _ = st["prune"]
+        if len(post_p["Wv"]) < len(pre_p["Wv"]):
+            removing += 1
+            c = st["ret"]
+            if c not in kept_pos or kept_pos.index(c) != c:
+                moved += 1
+                shifted += 1 if c in kept_pos else 0
+                orphaned += 1 if (kept_pos and c not in kept_pos) else 0
+    return shifted, orphaned, moved, removing
+
+
+def make_gif_case(ctx, i: int, seed=None):
+    seed = ctx.seed if seed is None else seed
+    r = gen.rng_for(seed, "C14-gif", i)
+    cls = specs.HAS_BETA[(i + seed) % 4]
+    best, best_key, want = None, None, (i // 4) % 2       # alternately: survives with another index / is removed
+    for _ in range(12):
+        cand = _gif_candidate(r, cls, i)
+        score = _gif_pilot(cand)
+        key = (score[want], score[1 - want]) + score[2:]
+        if best_key is None or key > best_key:
+            best, best_key, best_score = cand, key, score
+        if key[0] >= 1:
+            break
+    best["seed"], best["pilot"] = seed, best_score
+    return best
+
+
 def run_case(ctx, case: dict):
     """drive the implementation; returns (protocol line, per-call expectations) or None"""
     cov = ctx.cov
@@ -549,6 +713,8 @@ def run_case(ctx, case: dict):
     rep = {"case": case["i"], "spec": spec, "X": X, "calls": calls, "mode": mode, "eps": eps, "veto": vt}
     if reconf:
         rep["reconf"], rep["seed"] = True, case["seed"]
+    if case.get("gif"):
+        rep["gif"], rep["seed"] = True, case["seed"]
     reassigned: list = []          # hyper-parameters re-assigned so far (by attribute assignment)
     seconds_before = 0             # second-winner updates before the first re-assignment
     try:
@@ -598,22 +764,32 @@ def run_case(ctx, case: dict):
                 for e in blk["e"].values():
                     e[3] = None
             continue
-        entry = "fit" if kd == "fit" else "partial_fit"
+        entry = {"fit": "fit", "gif": "fit_gif"}.get(kd, "partial_fit")
+        fitlike = kd in ("fit", "gif")           # restarts the model, runs the pruning hook after every sample
         rec.steps = []
         raised = None
-        if kd == "fit":
+        rec.core_raised = False
+        if fitlike:
             rec.ids = []
         try:
             with quiet():
                 if kd == "fit":
                     m.fit(B, match_reset_func=reset, match_tracking=mode, epsilon=eps)
+                elif kd == "gif":
+                    fit_gif_call(m, B, match_reset_func=reset, match_tracking=mode, epsilon=eps)
                 else:
                     m.partial_fit(B, match_reset_func=reset, match_tracking=mode, epsilon=eps)
         except Exception as e:
             raised = e
+        if kd == "gif" and raised is not None and not rec.core_raised:
+            # the exception left the drawing / file-writing part of fit_gif, not TopoART's step or pruning round: the
+            # property does not speak about frames (recorded in the coverage, the case is not judged)
+            cov.hit(f"fit_gif:frame-drawing-raised:{exc_enum(raised)}")
+            cov.case((cls, spec, X.tolist(), calls, mode, eps, vt), False)
+            return None
         fin = rec.snap()
         steps = rec.steps
-        parts.append(("fit " if kd == "fit" else "pfit ") +
+        parts.append(("fit " if fitlike else "pfit ") +
                      (",".join(f"{st['g']}:{st['xid']}" for st in steps) if steps else "-"))
         # post-state of each sample = pre-state of the next one, or the final state
         posts = [steps[k + 1]["pre"] for k in range(len(steps) - 1)] + ([fin] if steps else [])
@@ -624,7 +800,7 @@ def run_case(ctx, case: dict):
         # ---------------- oracle on the implementation alone
         nW = len(fin["Wv"])
         if raised is None and (fin["adj_shape"] != (nW, nW) or fin["perm_shape"] != (nW,)):
-            sig = f"TopoART.{entry}:zero-rows-stale-adjacency" if (kd == "fit" and hi == lo) else f"TopoART[{cls}].{entry}:shape"
+            sig = f"TopoART.{entry}:zero-rows-stale-adjacency" if (fitlike and hi == lo) else f"TopoART[{cls}].{entry}:shape"
             ctx.issue("violation", sig, f"after {entry} of {hi - lo} rows: |W|={nW}, adjacency {fin['adj_shape']}, "
                       f"mask {fin['perm_shape']}", rep)
         wiped = False
@@ -634,15 +810,20 @@ def run_case(ctx, case: dict):
         repo = dict(rep, _Xfit=B)
         for k, (st, post) in enumerate(zip(steps, posts)):
             if st["prune"] is not None:
-                nontrivial = True
+                nontrivial = nontrivial or not case.get("gif")
                 oracle_prune(ctx, rec, st, cls, repo, phi)
                 if not st["prune"][1]["Wv"]:
                     wiped = True
+                if kd == "gif":
+                    npre, npost = len(st["prune"][0]["Wv"]), len(st["prune"][1]["Wv"])
+                    cov.hit("fit_gif:pruning-round-during-the-call" + (":removes-all" if not npost else
+                                                                      ":removes-some" if npost < npre else ":removes-none"))
+                    nontrivial = nontrivial or npost < npre
             presented = base_rows + k + 1 if kd == "pfit" else k + 1
             oracle_step(ctx, rec, st, post, mode, has_reset, entry + ("[after-reassignment]" if reassigned else ""),
                         cls, rep, presented, wiped)
             if any(cc is not None and rr >= 0 for (cc, rr, _) in st["updates"]):
-                nontrivial = nontrivial or not reconf
+                nontrivial = nontrivial or not (reconf or case.get("gif"))
                 if reconf and not reassigned:
                     seconds_before += 1
                 elif reconf:
@@ -656,12 +837,12 @@ def run_case(ctx, case: dict):
                 cov.hit("veto-of-nonmatching-category")
             # the schedule: every tau samples a pruning round has happened
             if post["n"] % tau == 0:
-                if kd == "fit" and st["prune"] is None:
-                    ctx.issue("violation", f"TopoART[{cls}].fit:no-prune-at-tau", f"step {st['g']}: n={post['n']}", rep)
+                if fitlike and st["prune"] is None:
+                    ctx.issue("violation", f"TopoART[{cls}].{entry}:no-prune-at-tau", f"step {st['g']}: n={post['n']}", rep)
                 pending = [j for j in range(len(post["Wv"])) if not (j < len(post["perm"]) and post["perm"][j])]
                 if pending:
                     sig = ("TopoART.partial_fit:no-prune-at-tau" if kd == "pfit"
-                           else f"TopoART[{cls}].fit:non-permanent-survivor")
+                           else f"TopoART[{cls}].{entry}:non-permanent-survivor")
                     ctx.issue("violation", sig, f"sample_counter_={post['n']} is a multiple of tau={tau} but categories "
                               f"{pending} (counts {[post['cnt'][j] for j in pending]}, phi={phi}) were neither removed "
                               f"nor made permanent after the {entry} step", rep)
@@ -721,10 +902,13 @@ def compare(ctx, case, line, out, expect, rep):
             continue
         _, entry, steps, posts, fin = ex
         recs = seg.split(" ; ")
+        # the model runs a fit_gif call as a fit call; the two differ only in the labels of the rows NOT yet presented
+        # (fit starts from zeros, fit_gif from -1): those are compared on the rows presented so far
+        upto = (lambda st_, k_: (dict(st_, labels=st_["labels"][:k_]) if entry == "fit_gif" else st_))
         if len(recs) != len(steps) + 1 or not recs[-1].startswith("end "):
             ctx.issue("diff", f"topo:{cls}:protocol", f"{len(recs)} records for {len(steps)} steps", rep)
             return
-        for st, post, rs in zip(steps, posts, recs):
+        for kstep, (st, post, rs) in enumerate(zip(steps, posts, recs)):
             kv = parse_kv(rs)
             where = f"case {case['i']} {entry} step {st['g']}"
             if kv["V"] == "unrecorded-match":
@@ -755,11 +939,11 @@ def compare(ctx, case, line, out, expect, rep):
             if (kv["P"] == "1") != (st["prune"] is not None):
                 ctx.issue("diff", f"topo:{cls}:schedule", f"{where}: impl pruned={st['prune'] is not None} model P={kv['P']}", rep)
                 return
-            dff = state_diff(state_of_kv(kv), post)
+            dff = state_diff(upto(state_of_kv(kv), kstep + 1), upto(post, kstep + 1))
             if dff:
                 ctx.issue("diff", f"topo:{cls}:state", f"{where}: {dff}", rep)
                 return
-        dff = state_diff(state_of_kv(parse_kv(recs[-1])), fin)
+        dff = state_diff(upto(state_of_kv(parse_kv(recs[-1])), len(steps)), upto(fin, len(steps)))
         if dff:
             ctx.issue("diff", f"topo:{cls}:final-state", f"case {case['i']} after {entry}: {dff}", rep)
             return
@@ -1003,6 +1187,28 @@ def run_long(ctx):
         run_long_case(ctx, case)
 
 
+def run_gif(ctx):
+    if _matplotlib() is None:
+        ctx.cov.hit("fit_gif:matplotlib-missing")
+        return
+    lines, meta = [], []
+    for i in range(ctx.scale(9, 60)):
+        case = make_gif_case(ctx, i)
+        ctx.cov.hit("fit_gif:pilot:" + ("closing-sample's-category-survives-with-another-index" if case["pilot"][0] else
+                                        "closing-sample's-category-removed" if case["pilot"][2] else
+                                        "a-round-removes" if case["pilot"][3] else "no-removal-found"))
+        res = run_case(ctx, case)
+        if res is None:
+            continue
+        line, expect, rep = res
+        ctx.cov.hit(f"fit_gif:{case['cls']}")
+        ctx.cov.hit(f"fit_gif:history:{case['style']}")
+        lines.append(line)
+        meta.append((case, expect, rep))
+    for line, out, (case, expect, rep) in zip(lines, run_driver(lines) if lines else [], meta):
+        compare(ctx, case, line, out, expect, rep)
+
+
 def prepare(ctx):
     """Translator tie (see gen_tie.py): the source of this slice is re-translated to Lean on every run
     (harness/artv/ttrans.py) and proved equal to the model the property theorems are about"""
@@ -1031,6 +1237,8 @@ def run(ctx):
         run_case(ctx, make_reconf_case(ctx, i))
     # very long streams concentrated on one ordered (best, second-best) pair (oracle alone)
     run_long(ctx)
+    # histories whose training call is fit_gif, with pruning rounds during the call (model + oracle)
+    run_gif(ctx)
     ctx.trusted.append("kernel tables: base-module kernel results interned by bytes at the call boundary (harness)")
     ctx.assumptions.append("weights are compared by value through interning; arithmetic of the kernels is C03's subject")
 
@@ -1044,7 +1252,10 @@ def replay(ctx, payload):
         if case is not None:
             run_long_case(ctx, case)
         return 0
+    if rep.get("gif") and _matplotlib() is None:
+        return 0
     case = (make_reconf_case(ctx, int(rep["case"]), rep.get("seed")) if rep.get("reconf")
+            else make_gif_case(ctx, int(rep["case"]), rep.get("seed")) if rep.get("gif")
             else make_case(ctx, int(rep["case"])))
     res = run_case(ctx, case)
     if res:
